@@ -69,6 +69,8 @@ class World(object):
         self.cb_args = []       # (role, kind, argument object)
         self.objects = {}       # id -> created object
         self.trace = []         # [token, object produced or None, exception class raised or None] per scripted call
+        self.link = []          # NFC-DEP exchanges of the real link loop (real-LLC runs)
+        self.activations = []   # (log position, success) of every NFC-DEP activation attempt (real-LLC runs)
 
     def pop(self, site):
         a = self.env.pop(0) if self.env else ("0",)
@@ -329,6 +331,85 @@ def installed(nfc, world):
         yield new_clf
     finally:
         (nfc.clf.device.connect, nfc.clf.time, nfc.tag.activate, nfc.tag.emulate, LLC.activate) = saved
+
+
+class QuietTime(object):
+    """virtual clock for nfc.llcp.llc (collect() sleeps between PDUs): no waiting, nothing logged"""
+    def __init__(self):
+        self.now = 5000.0
+
+    def time(self):
+        self.now += 0.001
+        return self.now
+
+    def sleep(self, s):
+        self.now += max(0.0, s)
+
+
+@contextlib.contextmanager
+def installed_real_llc(nfc, world):
+    """like `installed`, but LogicalLinkController.activate and the run loops are the REAL ones:
+    only the NFC-DEP MAC below them is scripted (nfc.dep.Initiator/Target.activate, exchange,
+    deactivate).  An activation attempt logs la:t / la:i and consumes one answer:
+      F.<..>.<..>.<..>.<k>  the peer answers ATR with LLCP general bytes, then k SYMM PDUs, then is gone
+      i / K                 IOError / KeyboardInterrupt        anything else: nobody there (None)
+    exchange() is recorded in world.link (not in the log) and consumes nothing."""
+    import nfc.clf
+    import nfc.clf.device
+    import nfc.dep
+    import nfc.llcp.llc
+    FakeDevice = make_classes(nfc, world)[0]
+
+    def W():
+        return world[0]
+
+    def make_activate(tok):
+        def activate(self, *args, **options):
+            w = W()
+            w.log.append(tok)
+            a, i = w.pop(tok)
+            w.common_raise(a, tok)
+            ok = a[0] == "F"
+            w.activations.append((len(w.log) - 1, ok))
+            if not ok:
+                return None
+            self._symm_left = a[4]
+            self.rwt = 0.001
+            self.miu = 248
+            self.did = None
+            # LLCP magic + version 1.3 + MIUX 120 + LTO 500 ms: a well-formed PAX without DPC
+            return bytearray(b"Ffm" + bytes([1, 1, 0x13, 2, 2, 0x00, 0x78, 4, 1, 50]))
+        return activate
+
+    def exchange(self, data, timeout):
+        W().link.append("dx")      # link-level traffic: not part of connect()'s documented history
+        left = getattr(self, "_symm_left", 0)
+        if left > 0:
+            self._symm_left = left - 1
+            return bytearray(b"\x00\x00")
+        return None
+
+    def deactivate(self, *a, **k):
+        return None
+
+    I, T = nfc.dep.Initiator, nfc.dep.Target
+    saved = (nfc.clf.device.connect, nfc.clf.time, nfc.llcp.llc.time,
+             I.activate, I.exchange, I.deactivate, T.activate, T.exchange, T.deactivate)
+    nfc.clf.device.connect = lambda path: FakeDevice()
+    nfc.clf.time = FakeTime(world)
+    nfc.llcp.llc.time = QuietTime()
+    I.activate, I.exchange, I.deactivate = make_activate("la:i"), exchange, deactivate
+    T.activate, T.exchange, T.deactivate = make_activate("la:t"), exchange, deactivate
+    try:
+        def new_clf():
+            clf = nfc.clf.ContactlessFrontend()
+            if not clf.open("fake"):
+                raise RuntimeError("scripted device did not open")
+            return clf
+        yield new_clf
+    finally:
+        (nfc.clf.device.connect, nfc.clf.time, nfc.llcp.llc.time,
+         I.activate, I.exchange, I.deactivate, T.activate, T.exchange, T.deactivate) = saved
 
 
 # ----------------------------------------------------------------------------- targets for sense()/listen()
